@@ -9,8 +9,14 @@
 (*                  loop.add_callback(condition.notify)                    *)
 (*   cb(): while True:                                                     *)
 (*             while not fresh: yield condition.wait()                     *)
-(*             fresh = False; x, md = slot (ownership of md moves to cb)   *)
-(*             yield self._emit(x, md); release(md)                        *)
+(*             fresh = False; x, md = slot                                 *)
+(*             yield self._emit(x, md)                                     *)
+(* In the tree the slot keeps its reference until the next arrival         *)
+(* overwrites it (streamz/tests/test_core.py::test_latest_ref_counts pins  *)
+(* this), so the reference of an element can be released while that        *)
+(* element is still being handled downstream: CbSafe fails for             *)
+(* CbOwns = FALSE (known finding F06-latest); CbOwns = TRUE is the design  *)
+(* in which cb owns the reference during the emission.                     *)
 (*                                                                         *)
 (* Every notify is a separately scheduled loop callback (RunNotify): a     *)
 (* notify that finds no waiter is lost, which is why the `fresh` flag is   *)
@@ -20,7 +26,9 @@
 (***************************************************************************)
 EXTENDS Integers, Sequences, FiniteSets, TLC
 
-CONSTANTS NE, SyncCons, Legacy
+CONSTANTS NE, SyncCons, Legacy,
+          CbOwns   \* TRUE: cb takes the reference out of the slot and releases it after the emission (ideal
+                   \* design); FALSE: the slot keeps the reference until it is overwritten (the tree)
 
 VARIABLES arrived, slot, slotOwns, fresh, notifies, cbpc, hand, consBusy, delivered, rc, fired
 vars == <<arrived, slot, slotOwns, fresh, notifies, cbpc, hand, consBusy, delivered, rc, fired>>
@@ -57,7 +65,7 @@ CbEmit ==
     /\ IF Legacy THEN cbpc = "woken" ELSE (AtLoopTop /\ fresh)
     /\ hand' = slot
     /\ fresh' = FALSE
-    /\ slotOwns' = IF Legacy THEN slotOwns ELSE FALSE
+    /\ slotOwns' = IF CbOwns THEN FALSE ELSE slotOwns
     /\ delivered' = Append(delivered, slot)
     /\ cbpc' = "emitting"
     /\ consBusy' = ~SyncCons
@@ -77,7 +85,7 @@ ConsumerDone ==
 CbRelease ==
     /\ cbpc = "emitting" /\ ~consBusy
     /\ cbpc' = "released"
-    /\ IF Legacy THEN UNCHANGED <<rc, fired>>
+    /\ IF ~CbOwns THEN UNCHANGED <<rc, fired>>
        ELSE /\ rc' = [rc EXCEPT ![hand] = @ - 1]
             /\ fired' = IF rc[hand] - 1 <= 0 THEN Append(fired, hand) ELSE fired
     /\ hand' = 0
@@ -103,8 +111,9 @@ NewestEventually == [](arrived = NE => <>(delivered # <<>> /\ delivered[Len(deli
 InFlight(e) == (slot = e /\ fresh) \/ (hand = e /\ cbpc = "emitting")
 CbSafe == \A i \in 1 .. Len(fired) : ~InFlight(fired[i])
 RcBalance == /\ \A e \in Elems : rc[e] >= 0
-             /\ \A e \in Elems : rc[e] = (IF (slot = e /\ slotOwns) \/ (hand = e /\ cbpc = "emitting") THEN 1 ELSE 0)
+             /\ \A e \in Elems : rc[e] = (IF (slot = e /\ slotOwns) \/ (CbOwns /\ hand = e /\ cbpc = "emitting") THEN 1 ELSE 0)
              /\ \A e \in Elems : Cardinality({i \in 1 .. Len(fired) : fired[i] = e}) <= 1
-             /\ Quiescent => \A e \in 1 .. arrived : rc[e] = 0
+             \* at quiescence only the slot (the most recent value kept by the node) may hold a reference
+             /\ Quiescent => \A e \in 1 .. arrived : rc[e] = (IF slot = e /\ slotOwns THEN 1 ELSE 0)
 NoResurrection == [][\A e \in Elems : (\E i \in 1 .. Len(fired) : fired[i] = e) => rc'[e] <= 0]_vars
 =============================================================================
